@@ -64,14 +64,14 @@ Lemma fd_item_PT dd calc d kids seen used :
   fd_item dd calc (PT d kids) seen used =
   match dd d with
   | inr e => inr e
-  | inl i0 =>
-      match (if did_early (dget k_data_id d) then did_for calc (dget k_data_id d) i0 else inl (DInt 0)) with
+  | inl (i0, d') =>
+      match (if did_early (dget k_data_id d') then did_for calc (dget k_data_id d') i0 else inl (DInt 0)) with
       | inr e => inr e
       | inl _ =>
-          match nid_check (dget k_node_id d) used with
+          match nid_check (dget k_node_id d') used with
           | inr e => inr e
           | inl nid =>
-              match did_for calc (dget k_data_id d) i0 with
+              match did_for calc (dget k_data_id d') i0 with
               | inr e => inr e
               | inl dv =>
                   if existsb (did_eqb dv) seen then inr E_UNIQUE
@@ -85,10 +85,10 @@ Lemma fd_item_PT dd calc d kids seen used :
   end.
 Proof.
   cbn [fd_item].
-  destruct (dd d) as [i0|e]; [|reflexivity].
-  destruct (if did_early (dget k_data_id d) then did_for calc (dget k_data_id d) i0 else inl (DInt 0)) as [x0|e]; [|reflexivity].
-  destruct (nid_check (dget k_node_id d) used) as [nid|e]; [|reflexivity].
-  destruct (did_for calc (dget k_data_id d) i0) as [dv|e]; [|reflexivity].
+  destruct (dd d) as [[i0 d']|e]; [|reflexivity].
+  destruct (if did_early (dget k_data_id d') then did_for calc (dget k_data_id d') i0 else inl (DInt 0)) as [x0|e]; [|reflexivity].
+  destruct (nid_check (dget k_node_id d') used) as [nid|e]; [|reflexivity].
+  destruct (did_for calc (dget k_data_id d') i0) as [dv|e]; [|reflexivity].
   destruct (existsb (did_eqb dv) seen); [reflexivity|].
   assert (E : forall l s u,
              (fix loop (l : list pt) (seen' : list did) (used' : list Z) {struct l} : res (list rt) :=
@@ -97,7 +97,7 @@ Proof.
                 | x :: xs =>
                     match fd_item dd calc x seen' used' with
                     | inr e => inr e
-                    | inl t => match loop xs (seen' ++ [rdid t]) (used' ++ nids x) with
+                    | inl t => match loop xs (seen' ++ [rdid t]) (used' ++ nids dd x) with
                                | inr e => inr e
                                | inl ts => inl (t :: ts)
                                end
@@ -108,31 +108,32 @@ Proof.
   now rewrite E.
 Qed.
 
-(* what the success of one item says about its entries *)
+(* what the success of one item says about its entries ([d'] = the item as the
+   deserialisation step leaves it) *)
 Lemma fd_item_PT_ok dd calc d kids seen used t :
   fd_item dd calc (PT d kids) seen used = inl t ->
-  exists i0 dv nid ch,
-    dd d = inl i0 /\ did_for calc (dget k_data_id d) i0 = inl dv /\
-    nid_check (dget k_node_id d) used = inl nid /\
+  exists i0 d' dv nid ch,
+    dd d = inl (i0, d') /\ did_for calc (dget k_data_id d') i0 = inl dv /\
+    nid_check (dget k_node_id d') used = inl nid /\
     existsb (did_eqb dv) seen = false /\
     fd_loop dd calc kids [] (used ++ opt_list nid) = inl ch /\
     t = T 0%nat (mk_info i0 dv nid) ch.
 Proof.
   rewrite fd_item_PT. intros E.
-  destruct (dd d) as [i0|e] eqn:E1; [|discriminate].
-  destruct (if did_early (dget k_data_id d) then did_for calc (dget k_data_id d) i0 else inl (DInt 0)) as [x0|e]; [|discriminate].
-  destruct (nid_check (dget k_node_id d) used) as [nid|e] eqn:E3; [|discriminate].
-  destruct (did_for calc (dget k_data_id d) i0) as [dv|e] eqn:E2; [|discriminate].
+  destruct (dd d) as [[i0 d']|e] eqn:E1; [|discriminate].
+  destruct (if did_early (dget k_data_id d') then did_for calc (dget k_data_id d') i0 else inl (DInt 0)) as [x0|e]; [|discriminate].
+  destruct (nid_check (dget k_node_id d') used) as [nid|e] eqn:E3; [|discriminate].
+  destruct (did_for calc (dget k_data_id d') i0) as [dv|e] eqn:E2; [|discriminate].
   destruct (existsb (did_eqb dv) seen) eqn:Ex; [discriminate|].
   destruct (fd_loop dd calc kids [] (used ++ opt_list nid)) as [ch|e] eqn:El; [|discriminate].
-  injection E as <-. exists i0, dv, nid, ch.
-  refine (conj eq_refl (conj E2 (conj eq_refl (conj Ex (conj El eq_refl))))).
+  injection E as <-. exists i0, d', dv, nid, ch.
+  refine (conj eq_refl (conj E2 (conj E3 (conj Ex (conj El eq_refl))))).
 Qed.
 
 (* ... and conversely *)
-Lemma fd_item_PT_intro dd calc d kids seen used i0 dv nid :
-  dd d = inl i0 -> did_for calc (dget k_data_id d) i0 = inl dv ->
-  nid_check (dget k_node_id d) used = inl nid -> existsb (did_eqb dv) seen = false ->
+Lemma fd_item_PT_intro dd calc d kids seen used i0 d' dv nid :
+  dd d = inl (i0, d') -> did_for calc (dget k_data_id d') i0 = inl dv ->
+  nid_check (dget k_node_id d') used = inl nid -> existsb (did_eqb dv) seen = false ->
   fd_item dd calc (PT d kids) seen used =
   match fd_loop dd calc kids [] (used ++ opt_list nid) with
   | inr e => inr e
@@ -140,7 +141,7 @@ Lemma fd_item_PT_intro dd calc d kids seen used i0 dv nid :
   end.
 Proof.
   intros E1 E2 E3 E4. rewrite fd_item_PT, E1, E2, E3, E4.
-  destruct (did_early (dget k_data_id d)); reflexivity.
+  destruct (did_early (dget k_data_id d')); reflexivity.
 Qed.
 
 (* ------------------------------------------------------------------ *)
@@ -310,8 +311,24 @@ Qed.
    indistinguishable data object *)
 Definition own_entries (D0 D : jdict) : Prop := forall k, k <> k_children -> dget k D = dget k D0.
 
+(* ... and leaves the item with exactly the "data_id" entry the node needs (its
+   id when custom, none otherwise – whether the serialisation mapper kept it
+   there or moved it to another key and the deserialisation mapper restores it)
+   and without a "node_id" entry *)
 Definition inverse_on (sm : smapper) (dd : dmapper) (i : info) : Prop :=
-  forall D, own_entries (head_dict sm i) D -> exists i', dd D = inl i' /\ same_data i i'.
+  forall D, own_entries (head_dict sm i) D ->
+  exists i' D', dd D = inl (i', D') /\ same_data i i' /\
+                dget k_data_id D' = opt_id i /\ dget k_node_id D' = None.
+
+(* the only thing the round trip needs of the serialisation mapper itself: it
+   does not invent a "children" entry *)
+Definition sm_kids (sm : smapper) : Prop :=
+  forall i res, dget k_children res = None -> dget k_children (sm i res) = None.
+
+Lemma sm_ok_kids enc sm : sm_ok enc sm ->
+  forall i res, dget k_data res = Some (JStr (i_name i)) -> dget k_children res = None -> dget k_node_id res = None ->
+                dget k_children (sm i res) = None.
+Proof. intros H i res H1 H2 H3. now destruct (H i res H1 H2 H3) as (_ & _ & A & _). Qed.
 
 Lemma existsb_did_false dv seen : ~ In dv seen -> existsb (did_eqb dv) seen = false.
 Proof.
@@ -349,21 +366,37 @@ Qed.
 Lemma iso_rdid a b : iso a b -> rdid b = rdid a.
 Proof. intros H. inversion H as [id i ch id' i' ch' H1 Hd H3 H4 H5]; subst. exact Hd. Qed.
 
+Lemma to_dict_kids sm id i ch : sm_kids sm ->
+  exists D, to_dict sm (T id i ch) = JDict D /\ kids_of D = map (to_dict sm) ch /\ own_entries (head_dict sm i) D.
+Proof.
+  intros Hk. rewrite to_dict_unfold.
+  assert (A3 : dget k_children (head_dict sm i) = None).
+  { unfold head_dict. apply Hk. destruct (has_custom_did i); [|reflexivity].
+    rewrite dget_dset_other by exact k_ch_neq_id. reflexivity. }
+  destruct ch as [|c cs].
+  - exists (head_dict sm i). refine (conj eq_refl (conj _ _)).
+    + unfold kids_of. now rewrite A3.
+    + intros k _. reflexivity.
+  - eexists. split; [reflexivity|]. split.
+    + unfold kids_of. now rewrite dget_dset_same.
+    + intros k Hk'. now apply dget_dset_other.
+Qed.
+
 Section RoundTrip.
-  Variables (enc : info -> jv) (sm : smapper) (dd : dmapper).
-  Hypothesis Hsm : sm_ok enc sm.
+  Variables (sm : smapper) (dd : dmapper).
+  Hypothesis Hk : sm_kids sm.
 
   Definition rt_goal (t : rt) : Prop :=
     sibuniq t -> allinfo (inverse_on sm dd) t ->
     forall seen used, ~ In (rdid t) seen ->
     exists t', fd_item dd default_did (parse (to_dict sm t)) seen used = inl t' /\ iso t t' /\
-               nids (parse (to_dict sm t)) = [].
+               nids dd (parse (to_dict sm t)) = [].
 
   Lemma rt_loop : forall ch, Forall rt_goal ch ->
     NoDup (map rdid ch) -> Forall sibuniq ch -> Forall (allinfo (inverse_on sm dd)) ch ->
     forall seen used, (forall x, In x (map rdid ch) -> ~ In x seen) ->
     exists ch', fd_loop dd default_did (map parse (map (to_dict sm) ch)) seen used = inl ch' /\ Forall2 iso ch ch' /\
-                flat_map nids (map parse (map (to_dict sm) ch)) = [].
+                flat_map (nids dd) (map parse (map (to_dict sm) ch)) = [].
   Proof.
     induction ch as [|x xs IH]; intros HP ND SU AI seen used Hs.
     - exists []. split; [reflexivity|split; [constructor|reflexivity]].
@@ -384,22 +417,21 @@ Section RoundTrip.
   Proof.
     induction t as [id i ch IH] using rt_ind'. intros SU AI seen used Nin.
     inversion SU as [id0 i0 ch0 ND SUch]; subst. inversion AI as [id1 i1 ch1 Hinv AIch]; subst.
-    destruct (to_dict_dict_spec enc sm id i ch Hsm) as (D & ED & D1 & D2 & D3 & D4 & D5).
-    destruct (Hinv D D4) as (i' & Ei & SD).
-    assert (Edid : did_for default_did (dget k_data_id D) i' = inl (i_did i)).
-    { rewrite D2. destruct (has_custom_did i) eqn:C.
-      - apply did_for_of_did.
-      - cbn [did_for]. unfold has_custom_did in C. apply orb_false_iff in C as (C1 & C2).
-        apply negb_false_iff, did_eqb_eq in C2.
-        destruct SD as (_ & Eh & _). unfold default_did, unhashable in *. rewrite Eh, C1, C2. reflexivity. }
+    destruct (to_dict_kids sm id i ch Hk) as (D & ED & D3 & D4).
+    destruct (Hinv D D4) as (i' & D' & Ei & SD & Hid & Hnid).
+    assert (Edid : did_for default_did (dget k_data_id D') i' = inl (i_did i)).
+    { rewrite Hid. unfold opt_id. destruct SD as (_ & Eh & _).
+      destruct (Z.eqb (i_hash i) (-1)) eqn:C1; [apply did_for_of_did|].
+      destruct (did_eqb (i_did i) (DInt (i_hash i))) eqn:C2; [|apply did_for_of_did].
+      apply did_eqb_eq in C2. cbn [did_for]. unfold default_did, unhashable. rewrite Eh, C1, C2. reflexivity. }
     change (rdid (T id i ch)) with (i_did i) in Nin.
     destruct (rt_loop ch IH ND SUch AIch [] (used ++ opt_list None)) as (ch' & E & I & N); [intros x _ []|].
     rewrite ED, parse_dict.
-    rewrite (fd_item_PT_intro dd default_did D _ seen used i' (i_did i) None Ei Edid);
-      [|unfold nid_check; rewrite D5; reflexivity|apply existsb_did_false; exact Nin].
+    rewrite (fd_item_PT_intro dd default_did D _ seen used i' D' (i_did i) None Ei Edid);
+      [|unfold nid_check; rewrite Hnid; reflexivity|apply existsb_did_false; exact Nin].
     rewrite D3, E. eexists. split; [reflexivity|]. split.
     - constructor; try reflexivity; try assumption.
-    - cbn [nids]. rewrite D5. cbn [nid_of app]. exact N.
+    - cbn [nids]. rewrite Ei, Hnid. cbn [nid_of app]. exact N.
   Qed.
 
   (* from_dict before node identities are assigned *)
@@ -607,13 +639,72 @@ Qed.
 
 (* ------------------------------------------------------------------ *)
 (* The round trip, with identities *)
-Theorem roundtrip enc sm dd next f :
+Theorem roundtrip sm dd next f :
+  sm_kids sm -> sibuniq_f f -> Forall (allinfo (inverse_on sm dd)) f ->
+  exists f', tree_from_dict dd next (to_dict_list sm f) = inl f' /\
+             Forall2 iso f f' /\ ids f' = seq (S next) (size_f f).
+Proof.
+  intros Hk SU AI. destruct (roundtrip_raw sm dd Hk f SU AI) as (f0 & E & I).
+  unfold tree_from_dict, from_dict. rewrite E.
+  destruct (renum_forest_ok f0 next) as (B2 & _ & B4 & _).
+  eexists. split; [reflexivity|]. split; [now apply B4|].
+  rewrite B2. now rewrite (iso_f_size _ _ I).
+Qed.
+
+(* an admissible serialisation mapper (data_id left in place) with a
+   deserialisation step that only reads the item: being inverse is then just
+   "rebuilds indistinguishable data" *)
+Lemma sm_ok_sm_kids_on_head enc sm i : sm_ok enc sm -> dget k_children (head_dict sm i) = None.
+Proof. intros H. now destruct (head_dict_spec enc sm i H) as (_ & _ & A & _). Qed.
+
+Lemma inverse_on_pure enc sm f i : sm_ok enc sm ->
+  (forall D, own_entries (head_dict sm i) D -> exists i', f D = inl i' /\ same_data i i') ->
+  inverse_on sm (dd_pure f) i.
+Proof.
+  intros Hsm H D Hown. destruct (H D Hown) as (i' & E & SD).
+  exists i', D. unfold dd_pure. rewrite E. refine (conj eq_refl (conj SD _)).
+  destruct (head_dict_spec enc sm i Hsm) as (_ & A2 & _ & A4). split.
+  - rewrite (Hown k_data_id k_id_neq_ch), A2. apply opt_id_custom.
+  - rewrite (Hown k_node_id); [exact A4|discriminate].
+Qed.
+
+Lemma inverse_on_raw enc sm raw i : sm_ok enc sm ->
+  (exists i', raw (enc i) = inl i' /\ same_data i i') -> inverse_on sm (dd_raw raw) i.
+Proof.
+  intros Hsm H. apply (inverse_on_pure enc); [exact Hsm|]. intros D Hown.
+  rewrite (Hown k_data k_data_neq_ch). destruct (head_dict_spec enc sm i Hsm) as (A1 & _). rewrite A1. exact H.
+Qed.
+
+(* [sm_ok] mappers: the round trip in its simpler form *)
+Theorem roundtrip_ok enc sm dd next f :
   sm_ok enc sm -> sibuniq_f f -> Forall (allinfo (inverse_on sm dd)) f ->
   exists f', tree_from_dict dd next (to_dict_list sm f) = inl f' /\
              Forall2 iso f f' /\ ids f' = seq (S next) (size_f f).
 Proof.
-  intros Hsm SU AI. destruct (roundtrip_raw enc sm dd Hsm f SU AI) as (f0 & E & I).
-  unfold tree_from_dict, from_dict. rewrite E.
+  intros Hsm SU AI.
+  (* [sm_kids] is only used on the dicts to_dict builds: there sm_ok gives it *)
+  destruct SU as [ND SU].
+  assert (G : forall t, rt_goal sm dd t).
+  { induction t as [id i ch IH] using rt_ind'. intros SUt AIt seen used Nin.
+    inversion SUt as [id0 i0 ch0 NDc SUch]; subst. inversion AIt as [id1 i1 ch1 Hinv AIch]; subst.
+    destruct (to_dict_dict_spec enc sm id i ch Hsm) as (D & ED & _ & _ & D3 & D4 & _).
+    destruct (Hinv D D4) as (i' & D' & Ei & SD & Hid & Hnid).
+    assert (Edid : did_for default_did (dget k_data_id D') i' = inl (i_did i)).
+    { rewrite Hid. unfold opt_id. destruct SD as (_ & Eh & _).
+      destruct (Z.eqb (i_hash i) (-1)) eqn:C1; [apply did_for_of_did|].
+      destruct (did_eqb (i_did i) (DInt (i_hash i))) eqn:C2; [|apply did_for_of_did].
+      apply did_eqb_eq in C2. cbn [did_for]. unfold default_did, unhashable. rewrite Eh, C1, C2. reflexivity. }
+    change (rdid (T id i ch)) with (i_did i) in Nin.
+    destruct (rt_loop sm dd ch IH NDc SUch AIch [] (used ++ opt_list None)) as (ch' & E & I & N); [intros x _ []|].
+    rewrite ED, parse_dict.
+    rewrite (fd_item_PT_intro dd default_did D _ seen used i' D' (i_did i) None Ei Edid);
+      [|unfold nid_check; rewrite Hnid; reflexivity|apply existsb_did_false; exact Nin].
+    rewrite D3, E. eexists. split; [reflexivity|]. split.
+    - constructor; try reflexivity; try assumption.
+    - cbn [nids]. rewrite Ei, Hnid. cbn [nid_of app]. exact N. }
+  destruct (rt_loop sm dd f (proj2 (Forall_forall _ _) (fun t _ => G t)) ND SU AI [] []) as (f0 & E & I & _);
+    [intros x _ []|].
+  unfold tree_from_dict, from_dict, to_dict_list. rewrite E.
   destruct (renum_forest_ok f0 next) as (B2 & _ & B4 & _).
   eexists. split; [reflexivity|]. split; [now apply B4|].
   rewrite B2. now rewrite (iso_f_size _ _ I).
@@ -638,7 +729,7 @@ Section Safe.
     - cbn in E. injection E as <-. refine (conj (NoDup_nil _) (conj (Forall_nil _) _)). intros x [].
     - inversion HP as [|p0 ps0 Pp Pps]; subst. cbn [fd_loop] in E.
       destruct (fd_item dd calc p seen used) as [t|e] eqn:E1; [|discriminate].
-      destruct (fd_loop dd calc ps (seen ++ [rdid t]) (used ++ nids p)) as [ts|e] eqn:E2; [|discriminate].
+      destruct (fd_loop dd calc ps (seen ++ [rdid t]) (used ++ nids dd p)) as [ts|e] eqn:E2; [|discriminate].
       injection E as <-.
       destruct (Pp seen used t E1) as (S1 & N1).
       destruct (IH Pps _ _ _ E2) as (ND & SU & Dis).
@@ -652,7 +743,7 @@ Section Safe.
   Proof.
     induction p as [|d kids IH] using pt_ind'; intros seen used t E.
     - discriminate.
-    - apply fd_item_PT_ok in E as (i0 & dv & nid & ch & E1 & E2 & E3 & Ex & El & ->).
+    - apply fd_item_PT_ok in E as (i0 & d' & dv & nid & ch & E1 & E2 & E3 & Ex & El & ->).
       destruct (fd_loop_safe kids IH _ _ _ El) as (ND & SU & _).
       split; [constructor; assumption|]. apply existsb_did_false_inv. exact Ex.
   Qed.
@@ -700,10 +791,8 @@ Theorem roundtrip_strings raw next f :
   exists f', tree_from_dict (dd_raw raw) next (to_dict_list sm_none f) = inl f' /\
              Forall2 iso f f' /\ ids f' = seq (S next) (size_f f).
 Proof.
-  intros SU H. apply (roundtrip enc_name); [exact sm_none_ok|exact SU|].
-  apply allinfo_f_of_pre. intros x Hx D Hown. unfold dd_raw.
-  rewrite (Hown k_data k_data_neq_ch).
-  destruct (head_dict_spec enc_name sm_none (rinfo x) sm_none_ok) as (A1 & _). rewrite A1. exact (H x Hx).
+  intros SU H. apply (roundtrip_ok enc_name); [exact sm_none_ok|exact SU|].
+  apply allinfo_f_of_pre. intros x Hx. apply (inverse_on_raw enc_name); [exact sm_none_ok|]. exact (H x Hx).
 Qed.
 
 Theorem iso_consequences f f' : Forall2 iso f f' ->
@@ -732,25 +821,30 @@ Section Refusal.
   Definition eff (p : pt) : option did :=
     match p with
     | PT d _ => match dd d with
-                | inl i => match did_for calc (dget k_data_id d) i with inl dv => Some dv | inr _ => None end
+                | inl (i, d') => match did_for calc (dget k_data_id d') i with inl dv => Some dv | inr _ => None end
                 | inr _ => None
                 end
     | PBad => None
     end.
 
   Inductive wf_pt : pt -> Prop :=
-  | wf_PT : forall d kids dv, eff (PT d kids) = Some dv -> dget k_node_id d = None ->
-                              Forall wf_pt kids -> wf_pt (PT d kids).
+  | wf_PT : forall d kids i d' dv,
+      dd d = inl (i, d') -> did_for calc (dget k_data_id d') i = inl dv -> dget k_node_id d' = None ->
+      Forall wf_pt kids -> wf_pt (PT d kids).
+
+  Lemma wf_eff d kids i d' dv : dd d = inl (i, d') -> did_for calc (dget k_data_id d') i = inl dv ->
+    eff (PT d kids) = Some dv.
+  Proof. intros E1 E2. cbn [eff]. now rewrite E1, E2. Qed.
 
   Inductive uniq_pt : pt -> Prop :=
   | uniq_PT : forall d kids, NoDup (map eff kids) -> Forall uniq_pt kids -> uniq_pt (PT d kids).
 
   Lemma eff_inv d kids dv : eff (PT d kids) = Some dv ->
-    exists i, dd d = inl i /\ did_for calc (dget k_data_id d) i = inl dv.
+    exists i d', dd d = inl (i, d') /\ did_for calc (dget k_data_id d') i = inl dv.
   Proof.
-    cbn [eff]. destruct (dd d) as [i|e]; [|discriminate].
-    destruct (did_for calc (dget k_data_id d) i) as [x|e] eqn:E; [|discriminate].
-    intros H. injection H as <-. exists i. split; [reflexivity|exact E].
+    cbn [eff]. destruct (dd d) as [[i d']|e]; [|discriminate].
+    destruct (did_for calc (dget k_data_id d') i) as [x|e] eqn:E; [|discriminate].
+    intros H. injection H as <-. exists i, d'. split; [reflexivity|exact E].
   Qed.
 
   Lemma nid_check_none d used : dget k_node_id d = None -> nid_check (dget k_node_id d) used = inl None.
@@ -769,10 +863,11 @@ Section Refusal.
     - exists []. split; reflexivity.
     - inversion HP as [|p0 ps0 Pp Pps]; subst. inversion WF as [|p1 ps1 Wp Wps]; subst.
       inversion UQ as [|p2 ps2 Up Ups]; subst. inversion ND as [|e0 l0 Nin ND']; subst.
-      inversion Wp as [d kids dv Ee En Wk]; subst.
+      inversion Wp as [d kids i0 d' dv Ed Edv En Wk]; subst.
+      pose proof (wf_eff d kids i0 d' dv Ed Edv) as Ee.
       destruct (Pp Wp Up seen used dv Ee) as (t & E1 & Et).
       { apply Hs. left. exact Ee. }
-      destruct (IH Pps Wps Ups ND' (seen ++ [rdid t]) (used ++ nids (PT d kids))) as (ts & E2 & M).
+      destruct (IH Pps Wps Ups ND' (seen ++ [rdid t]) (used ++ nids dd (PT d kids))) as (ts & E2 & M).
       { intros x Hx Hin. apply in_app_or in Hin as [Hin|[<-|[]]].
         - apply (Hs x); [now right|assumption].
         - apply Nin. rewrite Ee, <- Et. exact Hx. }
@@ -785,9 +880,9 @@ Section Refusal.
   Proof.
     induction p as [|d kids IH] using pt_ind'; intros WF UQ seen used dv Ee Nin.
     - discriminate.
-    - inversion WF as [d0 k0 dv0 _ En Wk]; subst. inversion UQ as [d1 k1 ND Uk]; subst.
-      destruct (eff_inv _ _ _ Ee) as (i & E1 & E2).
-      rewrite (fd_item_PT_intro dd calc d kids seen used i dv None E1 E2 (nid_check_none d used En)
+    - inversion WF as [d0 k0 i d' dv0 E1 E2 En Wk]; subst. inversion UQ as [d1 k1 ND Uk]; subst.
+      assert (dv0 = dv) as ->. { rewrite (wf_eff d kids i d' dv0 E1 E2) in Ee. now injection Ee. }
+      rewrite (fd_item_PT_intro dd calc d kids seen used i d' dv None E1 E2 (nid_check_none d' used En)
                                 (existsb_did_false _ _ Nin)).
       destruct (fd_loop_ok kids IH Wk Uk ND [] (used ++ opt_list None)) as (ch & E & _); [intros x _ []|].
       rewrite E. eexists. split; reflexivity.
@@ -803,7 +898,7 @@ Section Refusal.
     induction l as [|p ps IH]; intros HP WF seen used e E; [discriminate|].
     inversion HP as [|p0 ps0 Pp Pps]; subst. inversion WF as [|p1 ps1 Wp Wps]; subst.
     cbn [fd_loop] in E. destruct (fd_item dd calc p seen used) as [t|e1] eqn:E1.
-    - destruct (fd_loop dd calc ps (seen ++ [rdid t]) (used ++ nids p)) as [ts|e2] eqn:E2; [discriminate|].
+    - destruct (fd_loop dd calc ps (seen ++ [rdid t]) (used ++ nids dd p)) as [ts|e2] eqn:E2; [discriminate|].
       injection E as <-. eapply IH; eassumption.
     - injection E as <-. eapply Pp; eassumption.
   Qed.
@@ -812,11 +907,11 @@ Section Refusal.
   Proof.
     induction p as [|d kids IH] using pt_ind'; intros WF seen used e E.
     - inversion WF.
-    - inversion WF as [d0 k0 dv Ee En Wk]; subst. destruct (eff_inv _ _ _ Ee) as (i & E1 & E2).
+    - inversion WF as [d0 k0 i d' dv E1 E2 En Wk]; subst.
       destruct (existsb (did_eqb dv) seen) eqn:Ex.
-      + rewrite fd_item_PT, E1, E2, (nid_check_none d used En), Ex in E.
-        destruct (did_early (dget k_data_id d)); now injection E as <-.
-      + rewrite (fd_item_PT_intro dd calc d kids seen used i dv None E1 E2 (nid_check_none d used En) Ex) in E.
+      + rewrite fd_item_PT, E1, E2, (nid_check_none d' used En), Ex in E.
+        destruct (did_early (dget k_data_id d')); now injection E as <-.
+      + rewrite (fd_item_PT_intro dd calc d kids seen used i d' dv None E1 E2 (nid_check_none d' used En) Ex) in E.
         destruct (fd_loop dd calc kids [] (used ++ opt_list None)) as [ch|e1] eqn:El; [discriminate|].
         injection E as <-. eapply fd_loop_err; eassumption.
   Qed.
@@ -833,7 +928,7 @@ Section Refusal.
     - cbn in E. injection E as <-. split; [reflexivity|constructor].
     - inversion HP as [|p0 ps0 Pp Pps]; subst. cbn [fd_loop] in E.
       destruct (fd_item dd calc p seen used) as [t|e] eqn:E1; [|discriminate].
-      destruct (fd_loop dd calc ps (seen ++ [rdid t]) (used ++ nids p)) as [ts|e] eqn:E2; [|discriminate].
+      destruct (fd_loop dd calc ps (seen ++ [rdid t]) (used ++ nids dd p)) as [ts|e] eqn:E2; [|discriminate].
       injection E as <-. destruct (Pp _ _ _ E1) as (A1 & A2). destruct (IH Pps _ _ _ E2) as (B1 & B2).
       split; [cbn [map]; now rewrite A1, B1|constructor; assumption].
   Qed.
@@ -842,7 +937,7 @@ Section Refusal.
   Proof.
     induction p as [|d kids IH] using pt_ind'; intros seen used t E.
     - discriminate.
-    - apply fd_item_PT_ok in E as (i0 & dv & nid & ch & E1 & E2 & E3 & Ex & El & ->).
+    - apply fd_item_PT_ok in E as (i0 & d' & dv & nid & ch & E1 & E2 & E3 & Ex & El & ->).
       cbn [eff]. rewrite E1, E2. split; [reflexivity|].
       destruct (fd_loop_conv kids IH _ _ _ El) as (M & U).
       constructor; [|exact U]. rewrite M.
@@ -915,9 +1010,9 @@ Section Built.
   Variables (dd : dmapper) (calc : info -> res did).
 
   Inductive built : pt -> rt -> Prop :=
-  | built_node : forall d kids i dv nid id ch,
-      dd d = inl i -> did_for calc (dget k_data_id d) i = inl dv ->
-      nid_of (dget k_node_id d) = inl nid ->
+  | built_node : forall d kids i d' dv nid id ch,
+      dd d = inl (i, d') -> did_for calc (dget k_data_id d') i = inl dv ->
+      nid_of (dget k_node_id d') = inl nid ->
       Forall2 built kids ch -> built (PT d kids) (T id (mk_info i dv nid) ch).
 
   Definition built_goal (p : pt) : Prop := forall seen used t, fd_item dd calc p seen used = inl t -> built p t.
@@ -929,7 +1024,7 @@ Section Built.
     - cbn in E. injection E as <-. constructor.
     - inversion HP as [|p0 ps0 Pp Pps]; subst. cbn [fd_loop] in E.
       destruct (fd_item dd calc p seen used) as [t|e] eqn:E1; [|discriminate].
-      destruct (fd_loop dd calc ps (seen ++ [rdid t]) (used ++ nids p)) as [ts|e] eqn:E2; [|discriminate].
+      destruct (fd_loop dd calc ps (seen ++ [rdid t]) (used ++ nids dd p)) as [ts|e] eqn:E2; [|discriminate].
       injection E as <-. constructor; [eapply Pp; eassumption|eapply IH; eassumption].
   Qed.
 
@@ -944,7 +1039,7 @@ Section Built.
   Proof.
     induction p as [|d kids IH] using pt_ind'; intros seen used t E.
     - discriminate.
-    - apply fd_item_PT_ok in E as (i0 & dv & nid & ch & E1 & E2 & E3 & Ex & El & ->).
+    - apply fd_item_PT_ok in E as (i0 & d' & dv & nid & ch & E1 & E2 & E3 & Ex & El & ->).
       econstructor; [exact E1|exact E2|eapply nid_check_of; exact E3|]. eapply fd_loop_built; eassumption.
   Qed.
 
@@ -952,7 +1047,7 @@ Section Built.
   Proof.
     induction p as [|d kids IH] using pt_ind'; intros t B t' Q.
     - inversion B.
-    - inversion B as [d0 k0 i dv nid id ch E1 E2 E3 F]; subst.
+    - inversion B as [d0 k0 i d' dv nid id ch E1 E2 E3 F]; subst.
       inversion Q as [id0 i0 ch0 id' ch' Fq]; subst.
       econstructor; [exact E1|exact E2|exact E3|].
       clear -IH F Fq. revert ch' Fq. induction F as [|k c ks cs Hkc _ IHF]; intros ch' Fq.
@@ -984,7 +1079,8 @@ Section Canonical.
 
   Inductive canon : jv -> Prop :=
   | canon_item : forall s i idpart chpart,
-      dd ([(k_data, JStr s)] ++ idpart ++ chpart) = inl i -> i_name i = s -> i_hash i <> (-1)%Z ->
+      dd ([(k_data, JStr s)] ++ idpart ++ chpart) = inl (i, [(k_data, JStr s)] ++ idpart ++ chpart) ->
+      i_name i = s -> i_hash i <> (-1)%Z ->
       (idpart = [] \/ exists dv, idpart = [(k_data_id, jv_of_did dv)] /\ dv <> DInt (i_hash i)) ->
       (chpart = [] \/ exists c cs, chpart = [(k_children, JList (c :: cs))] /\ Forall canon (c :: cs)) ->
       canon (JDict ([(k_data, JStr s)] ++ idpart ++ chpart)).
@@ -994,9 +1090,9 @@ Section Canonical.
     induction t as [id i ch IH] using rt_ind'. intros j C B.
     inversion C as [s i0 idpart chpart Ed En Hh Hid Hch]; subst j.
     rewrite parse_dict in B.
-    inversion B as [d0 k0 i1 dv nid id1 ch1 E1 E2 E3 F]; subst.
+    inversion B as [d0 k0 i1 d1 dv nid id1 ch1 E1 E2 E3 F]; subst.
     change ([(k_data, JStr (i_name i0))] ++ idpart ++ chpart) with ((k_data, JStr (i_name i0)) :: idpart ++ chpart) in *.
-    rewrite Ed in E1. injection E1 as <-.
+    rewrite Ed in E1. injection E1 as <- <-.
     rewrite to_dict_plain_exact. cbn [i_name i_did i_hash mk_info]. apply f_equal.
     change ([(k_data, JStr (i_name i0))] ++ ?x) with ((k_data, JStr (i_name i0)) :: x). apply f_equal.
     assert (Kids : kids_of ((k_data, JStr (i_name i0)) :: idpart ++ chpart) =
@@ -1050,16 +1146,16 @@ Section NodeIds.
     NoDup l /\ forall z, In z l -> z <> 0%Z /\ ~ In z used.
 
   Definition nid_goal (p : pt) : Prop :=
-    forall seen used t, fd_item dd calc p seen used = inl t -> nids_fresh (nids p) used.
+    forall seen used t, fd_item dd calc p seen used = inl t -> nids_fresh (nids dd p) used.
 
   Lemma fd_loop_nids : forall l, Forall nid_goal l ->
-    forall seen used f, fd_loop dd calc l seen used = inl f -> nids_fresh (flat_map nids l) used.
+    forall seen used f, fd_loop dd calc l seen used = inl f -> nids_fresh (flat_map (nids dd) l) used.
   Proof.
     induction l as [|p ps IH]; intros HP seen used f E.
     - split; [constructor|intros z []].
     - inversion HP as [|p0 ps0 Pp Pps]; subst. cbn [fd_loop] in E.
       destruct (fd_item dd calc p seen used) as [t|e] eqn:E1; [|discriminate].
-      destruct (fd_loop dd calc ps (seen ++ [rdid t]) (used ++ nids p)) as [ts|e] eqn:E2; [|discriminate].
+      destruct (fd_loop dd calc ps (seen ++ [rdid t]) (used ++ nids dd p)) as [ts|e] eqn:E2; [|discriminate].
       destruct (Pp _ _ _ E1) as (N1 & F1). destruct (IH Pps _ _ _ E2) as (N2 & F2).
       cbn [flat_map]. split.
       + apply NoDup_app_intro; [exact N1|exact N2|].
@@ -1084,8 +1180,8 @@ Section NodeIds.
   Proof.
     induction p as [|d kids IH] using pt_ind'; intros seen used t E.
     - discriminate.
-    - apply fd_item_PT_ok in E as (i0 & dv & nid & ch & E1 & E2 & E3 & Ex & El & ->).
-      destruct (fd_loop_nids kids IH _ _ _ El) as (Nk & Fk). cbn [nids].
+    - apply fd_item_PT_ok in E as (i0 & d' & dv & nid & ch & E1 & E2 & E3 & Ex & El & ->).
+      destruct (fd_loop_nids kids IH _ _ _ El) as (Nk & Fk). cbn [nids]. rewrite E1.
       destruct nid as [z|].
       + destruct (nid_check_some _ _ _ E3) as (En & Z0 & Zu). rewrite En. cbn [app]. split.
         * constructor; [|exact Nk]. intros Hin. destruct (Fk z Hin) as (_ & Hn). apply Hn.
@@ -1098,7 +1194,7 @@ Section NodeIds.
   Qed.
 
   Theorem from_dict_node_ids next obj f : from_dict dd calc next obj = inl f ->
-    NoDup (flat_map nids (map parse obj)) /\ ~ In 0%Z (flat_map nids (map parse obj)).
+    NoDup (flat_map (nids dd) (map parse obj)) /\ ~ In 0%Z (flat_map (nids dd) (map parse obj)).
   Proof.
     unfold from_dict. destruct (fd_loop dd calc (map parse obj) [] []) as [f0|e] eqn:E; [|discriminate].
     intros _. destruct (fd_loop_nids _ (proj2 (Forall_forall _ _) (fun p _ => fd_item_nids p)) _ _ _ E) as (N & F).
